@@ -25,6 +25,8 @@ var pending *hx.Violation
 var delivered map[common.Uint256]*types.Block
 var failedSwitch bool
 
+var everActive = map[common.Uint256]bool{}
+
 func coinbaseOK(b *types.Block) bool { return !sim.IsBad(b) }
 
 // validWork: cumulative work (Σ CalcWork(bits), genesis excluded) of the chain ending in b if b and all
@@ -56,6 +58,7 @@ func exec(t []string) string {
 	switch t[0] {
 	case "reset":
 		delivered = map[common.Uint256]*types.Block{}
+		everActive = map[common.Uint256]bool{}
 		failedSwitch = false
 		return sim.Exec(t)
 	case "deliver", "deliverw":
@@ -70,6 +73,9 @@ func exec(t []string) string {
 		_, seenBefore := delivered[blk.Hash()]
 		delivered[blk.Hash()] = blk
 		after, ah := sim.N.Tip()
+		for _, h := range sim.N.ActiveChain() {
+			everActive[h] = true
+		}
 		// (1) the active chain is valid
 		for _, h := range sim.N.ActiveChain()[1:] {
 			if b := sim.N.Block(h); b != nil && !coinbaseOK(b) {
@@ -128,13 +134,10 @@ func exec(t []string) string {
 	}
 	if t[0] == "restart" {
 		out := sim.Exec(t)
-		// the side-chain block cache is memory only: after a restart the node knows the active chain
-		active := map[common.Uint256]bool{}
-		for _, h := range sim.N.ActiveChain() {
-			active[h] = true
-		}
+		// the side-chain block cache is memory only: after a restart the node knows the blocks that were
+		// connected at some time (their rows stay in the store when they are disconnected)
 		for h := range delivered {
-			if !active[h] {
+			if !everActive[h] {
 				delete(delivered, h)
 			}
 		}
@@ -324,7 +327,26 @@ func tree(g *hx.Gen, idx int) {
 			trunk = regnet.Extend(trunk, b)
 			h.Deliver(b)
 		} else if tipHash == sim.BranchTip(br).Hash() {
+			stale := trunk
 			trunk = br
+			// the node has switched: the old chain is now a detached branch. Sometimes the node restarts here (the
+			// block index is rebuilt from the store) and the stale branch then grows past the active chain.
+			if !sim.Retarget && len(stale.Blocks) >= 2 && r.Chance(45) {
+				g.Emit("restart")
+				need := len(trunk.Blocks) - len(stale.Blocks) + 1 + r.Intn(2)
+				if need < 1 {
+					need = 1
+				}
+				for i := 0; i < need; i++ {
+					b := h.HonestBlock(stale, 1)
+					stale = regnet.Extend(stale, b)
+					h.Deliver(b)
+					h.Observe(false, 4)
+				}
+				if th, _ := sim.N.Tip(); th == sim.BranchTip(stale).Hash() {
+					trunk = stale
+				}
+			}
 		}
 	}
 	// orphan siblings: a withheld parent with 2–3 children (each with a tail) delivered first; the
